@@ -31,7 +31,7 @@ from ..cfg import explore, canon_fact
 from ..rules import call_sites, node_calls, event_facts, check_settles, settle_sites, fresh_cfg
 from ..mutate import mutate, remove_stmts, replace_expr, replace_stmt, parse_stmt, parse_expr
 from ..model import AnalysisError
-from ..x_guardflow import ClassEffects, guard_facts, has, prune_exceptions, unbound_uses
+from ..x_guardflow import ClassEffects, guard_facts, has, prune_exceptions, unbound_uses, settles_guarded
 
 TECHNIQUE = "SETTLE lint + ownership dominance on the CFG + raise-model exception escape + definite assignment"
 EXPLANATION = (
@@ -124,7 +124,7 @@ def connector(ck):
     # ---- SETTLE
     n = 0
     for fi in methods:
-        n += check_settles(ck, "C10.settle-guarded", fi, "self.future", allow_safe_unguarded=False)
+        n += settles_guarded(ck, "C10.settle-guarded", fi, "self.future", eff, allow_safe_unguarded=False)
         for node, c, p, kind in settle_sites(fi):
             if p != "self.future" and p.endswith(".future"):
                 raise AnalysisError("settle of %s in %s: not the connector's own future" % (p, fi.qualname))
